@@ -155,45 +155,57 @@ def check_move(ctx, res, zdir, cfg, files, rows, row, variant, marker, model_req
     if not same_page:
         model_reqs.append(({"op": "nt.deleteNote", "lines": s_lines, "zid": row["zid"], "n": b - a}, after_src.split("\n")))
         model_reqs.append(({"op": "nt.addNote", "lines": before_dst.split("\n"), "note": ins_text + [""]}, after_dst.split("\n")))
+        kind_char = {"BASIC": "-", "OPEN_TODO": "o", "CLOSED_TODO": "x", "CANCELED_TODO": "~", "BLOCKED_TODO": "<", "PARENT_TODO": ">"}.get(row["kind"])
+        if kind_char:
+            q = {"op": "move.text", "kind": kind_char, "body": row["body"], "zid": row["zid"], "projects": sorted(row["projects"]), "areas": sorted(row["areas"]),
+                 "contexts": sorted(row["contexts"]), "people": sorted(row["people"]), "props": [[k, [v]] for k, v in sorted(map(tuple, row["props"]))]}
+            if row["priority"] is not None:
+                q["priority"] = row["priority"]
+            if marker:
+                q["marker"] = marker
+            model_reqs.append((q, "\n".join(ins_text) + "\n"))
+
+
+def one_dir(ctx, res, rng, d):
+    """one generated directory: index it, move up to 6 (thorough: all) of its notes to every destination variant"""
+    from freezegun import freeze_time
+
+    zdir = ctx.tmp / "z"
+    cfg = Z.write_config(ctx.tmp / "cfg.yml", template_pattern_map={r"^tmpl/(?P<name>[a-z]+)\.zo$": "made.zot"})
+    model_reqs = []
+    zdir.mkdir(parents=True)
+    files = add_extended_zids(rng, add_mentions(rng, G.gen_dir(rng, npages=(2, 4), with_zid=True, sections=True, date_prob=0.1, far_dates=False)))
+    G.write_dir(zdir, files)
+    (zdir / "made.zot").write_text("# TEMPLATE made\n\n## {{ name }}\n")
+    Z.clear_engine_cache()
+    with freeze_time(dt.datetime(*TODAY, 12, 0)):
+        rc, _, _ = Z.zorg_main(zdir, "db", "create", config=cfg)
+    if rc != 0:
+        return model_reqs
+    rows = G.dump_index(zdir)
+    for r in rows:
+        r["priority"] = f"P{r['priority']}" if r["priority"] is not None else None
+    twins = [r for r in rows if any(o["zid"] == r["zid"] + "A" for o in rows)]
+    sample = rows if len(rows) <= 6 or ctx.tier == "thorough" else (twins[:2] + rng.sample(rows, 6 - len(twins[:2])))
+    for row in sample:
+        for variant in dest_variants(rng, files, row["path"]):
+            marker = rng.choice([None, "x", "~"])
+            check_move(ctx, res, zdir, cfg, files, rows, row, variant, marker, model_reqs)
+    if d < 1:
+        res.sample({"files": {k: v[:300] for k, v in files.items()}})
+    return model_reqs
 
 
 def body(ctx: C.Ctx, proof: C.ProofStatus) -> C.Result:
-    from freezegun import freeze_time
 
-    res = C.Result()
-    rng = ctx.rng
-    zdir = ctx.tmp / "z"
-    (ctx.tmp / "cfgd").mkdir(exist_ok=True)
-    cfg = Z.write_config(ctx.tmp / "cfg.yml", template_pattern_map={r"^tmpl/(?P<name>[a-z]+)\.zo$": "made.zot"})
-    model_reqs = []
-    for d in range(ctx.scale(6, 1500)):
-        if zdir.exists():
-            shutil.rmtree(zdir)
-        zdir.mkdir(parents=True)
-        files = add_extended_zids(rng, add_mentions(rng, G.gen_dir(rng, npages=(2, 4), with_zid=True, sections=True, date_prob=0.1, far_dates=False)))
-        G.write_dir(zdir, files)
-        (zdir / "made.zot").write_text("# TEMPLATE made\n\n## {{ name }}\n")
-        Z.clear_engine_cache()
-        with freeze_time(dt.datetime(*TODAY, 12, 0)):
-            rc, _, _ = Z.zorg_main(zdir, "db", "create", config=cfg)
-        if rc != 0:
-            continue
-        rows = G.dump_index(zdir)
-        for r in rows:
-            r["priority"] = f"P{r['priority']}" if r["priority"] is not None else None
-        twins = [r for r in rows if any(o["zid"] == r["zid"] + "A" for o in rows)]
-        sample = rows if len(rows) <= 6 or ctx.tier == "thorough" else (twins[:2] + rng.sample(rows, 6 - len(twins[:2])))
-        for row in sample:
-            for variant in dest_variants(rng, files, row["path"]):
-                marker = rng.choice([None, "x", "~"])
-                check_move(ctx, res, zdir, cfg, files, rows, row, variant, marker, model_reqs)
-        if d < 1:
-            res.sample({"files": {k: v[:300] for k, v in files.items()}})
+    res, rets = C.parallel_jobs(ctx, ctx.scale(12, 160), one_dir)
+    model_reqs = [q for r in rets if r for q in r]
     if proof.driver_ok and model_reqs:
         for (q, want), m in zip(model_reqs, C.model_batch([q for q, _ in model_reqs])):
             res.evaluations += 1
             if m.get("ok") != want:
-                res.disagreements.append(C.Failure(f"NoteText.{q['op'][3:]} differs from FileManager: model {str(m)[:300]} file {want[:8]}", q, "correspondence"))
+                what = "Move.movedText" if q["op"] == "move.text" else "NoteText." + q["op"][3:]
+                res.disagreements.append(C.Failure(f"{what} differs from the implementation: model {str(m)[:300]} file {str(want)[:300]}", q, "correspondence"))
                 break
     return res
 
@@ -206,7 +218,8 @@ RULE = (
     "indexed generated directories (sections, multi-line notes, ZIDs mentioned in earlier / later notes as words and [zid] links); up to 6 (all in "
     "thorough) notes per directory as the moved one x 7 destinations (existing page, header only, header + blank, no trailing newline, with sections, "
     "missing with / without matching template) x marker in {none, x, ~}; `zorg note move` in-process; byte-level checks of source and destination, "
-    "recompilation of both pages (same notes, requested kind, inherited tags and properties kept) and NoteText.addNote / deleteNote correspondence"
+    "recompilation of both pages (same notes, requested kind, inherited tags and properties kept), NoteText.addNote / deleteNote correspondence, and the "
+    "inserted text vs Move.movedText (hidden metadata + done-marker + to_string) computed from the index row"
 )
 ASSUME = ["the index is up to date with the files (C05 / C06)", "file system atomic"]
 
